@@ -52,7 +52,7 @@ PROPS = {
                 enums=['discriminants', 'incomparable', 'skip'], configs_quick=['default', 'safe', 'nightly'], design='7/C04'),
     'C05': dict(traits=['PartialEq', 'Eq', 'PartialOrd', 'Ord', 'Hash'],
                 theorems=['DW.C05_skip_uniform', 'DW.C05_skip_hash_superset', 'DW.C05_eq_iff_pcmp', 'DW.C05_eq_symm', 'DW.C05_eq_trans',
-                          'DW.C05_lt_gt', 'DW.C05_eq_hash', 'DW.C04_agree'],
+                          'DW.C05_lt_gt', 'DW.C05_lt_trans', 'DW.C05_eq_hash', 'DW.C04_agree'],
                 enums=['skip', 'incomparable', 'invalid'], design='7/C05'),
     'C06': dict(traits=None, part='all', item_filter='skip', theorems=['DW.Skip.traitSkipped_eq_covers', 'DW.C06_invisible_eq', 'DW.C06_invisible_pcmp', 'DW.C06_invisible_hash',
                                                                          'DW.C06_invisible_debug', 'DW.C06_invisible_zeroize', 'DW.C06_visible_eq',
@@ -77,7 +77,10 @@ PROPS = {
                 enums=['debug', 'zeroize', 'names'], configs_quick=['default', 'zod'], stage1=True, diagnostics=True, design='7/C14'),
     'C15': dict(traits=[], outcome='message', theorems=['DW.C15_incomparable_total', 'DW.C15_incomparable_needs_partial', 'DW.C15_incomparable_not_both',
                                                         'DW.C15_default_unique', 'DW.C15_default_needs_derive', 'DW.C15_union_traits',
-                                                        'DW.C15_skip_group_derived', 'DW.C15_no_duplicate_trait', 'DW.C15_item_attr_shape'],
+                                                        'DW.C15_skip_group_derived', 'DW.C15_no_duplicate_trait', 'DW.C15_item_attr_shape',
+                                                        'DW.C15_skip_repeated', 'DW.C15_field_attr_shape', 'DW.C15_skip_redundant', 'DW.C15_skip_redundant_bare',
+                                                        'DW.C15_skip_inner_no_fields', 'DW.C15_lifetime_bound', 'DW.C15_bad_trait', 'DW.C15_bad_trait_instances',
+                                                        'DW.C15_empty_struct', 'DW.C15_use_case'],
                 enums=['invalid', 'skip', 'default'], configs_quick=['default', 'zeroize'], diagnostics=True, design='7/C15'),
     'C16': dict(traits=[], outcome='message', theorems=['DW.C16_no_panic_stage2', 'DW.Input.fromInput_np', 'DW.genPanic_none', 'DW.C16_stage1_item_kept', 'DW.C16_stage1_forward'],
                 enums=['invalid', 'names'], stage1=True, malformed=0.6, configs_quick=['default', 'zeroize'], diagnostics=True, design='7/C16'),
